@@ -5,7 +5,7 @@ import json, sys
 props = {json.loads(l)['id']: json.loads(l) for l in open('/verif/properties.jsonl')}
 T = '''You are helping to test a verification framework for the Go library elliotchance/gedcom (GEDCOM genealogy files: decoder/encoder, dates, diff/merge, query language, HTML publishing). You act as an independent "bug seeder".
 
-Work ONLY inside the git worktree at {wt} (a checkout of the repository at its current HEAD). Do NOT read or write anything under /verif or /repo. The sandbox has no network. Every shell command needs: export GOFLAGS=-mod=mod GOPROXY=off GOSUMDB=off GOTOOLCHAIN=local
+Work ONLY inside the git worktree at {wt} (a checkout of the repository at its current HEAD). Do NOT read or write anything under /verif or /repo. Do NOT use `git stash` (the stash is shared by all worktrees of the repository; other seeders work concurrently) - keep a change with `git diff > file` and `git checkout -- .` instead. The sandbox has no network. Every shell command needs: export GOFLAGS=-mod=mod GOPROXY=off GOSUMDB=off GOTOOLCHAIN=local
 The existing test suite is run with: go test -vet=off -count=1 ./...   (it passes now; takes a few seconds).
 
 THE PROPERTY ({pid}: {title})
